@@ -1351,18 +1351,7 @@ func (c *Compiler) lowerCurrentOpcode() {
 
 		c.switchTo(originalLen, loopHeader)
 
-		if c.ensureTermination {
-			checkModuleExitCodePtr := builder.AllocateInstruction().
-				AsLoad(c.execCtxPtrValue,
-					wazevoapi.ExecutionContextOffsetCheckModuleExitCodeTrampolineAddress.U32(),
-					ssa.TypeI64,
-				).Insert(builder).Return()
-
-			args := c.allocateVarLengthValues(1, c.execCtxPtrValue)
-			builder.AllocateInstruction().
-				AsCallIndirect(checkModuleExitCodePtr, &c.checkModuleExitCodeSig, args).
-				Insert(builder)
-		}
+		c.insertTerminationCheck()
 	case wasm.OpcodeIf:
 		bt := c.readBlockType()
 
@@ -3662,7 +3651,28 @@ func (c *Compiler) lowerCallIndirect(typeIndex, tableIndex uint32) {
 	c.reloadAfterCall()
 }
 
+// insertTerminationCheck inserts the call to the trampoline that exits when the module is closed,
+// if the module is compiled with close-on-context-done. It is placed on every construct that can form
+// a cycle without growing the call stack: loop headers and tail calls.
+func (c *Compiler) insertTerminationCheck() {
+	if !c.ensureTermination {
+		return
+	}
+	builder := c.ssaBuilder
+	checkModuleExitCodePtr := builder.AllocateInstruction().
+		AsLoad(c.execCtxPtrValue,
+			wazevoapi.ExecutionContextOffsetCheckModuleExitCodeTrampolineAddress.U32(),
+			ssa.TypeI64,
+		).Insert(builder).Return()
+
+	args := c.allocateVarLengthValues(1, c.execCtxPtrValue)
+	builder.AllocateInstruction().
+		AsCallIndirect(checkModuleExitCodePtr, &c.checkModuleExitCodeSig, args).
+		Insert(builder)
+}
+
 func (c *Compiler) lowerTailCallReturnCall(fnIndex uint32) {
+	c.insertTerminationCheck()
 	isIndirect, sig, args, funcRefOrPtrValue := c.prepareCall(fnIndex)
 	builder := c.ssaBuilder
 	state := c.state()
@@ -3693,6 +3703,7 @@ func (c *Compiler) lowerTailCallReturnCall(fnIndex uint32) {
 }
 
 func (c *Compiler) lowerTailCallReturnCallIndirect(typeIndex, tableIndex uint32) {
+	c.insertTerminationCheck()
 	builder := c.ssaBuilder
 	state := c.state()
 	executablePtr, typ, args := c.prepareCallIndirect(typeIndex, tableIndex)
